@@ -110,6 +110,16 @@ func (ft *FT) BuildQuery(o *Obl, axs []axTerm) string {
 			}
 		}
 	}
+	var mid bytes.Buffer
+	for _, d := range ft.decls {
+		mid.WriteString(d + "\n")
+	}
+	for i, a := range axs {
+		if included[i] {
+			ft.axUsed[a.ax.Name] = true
+			mid.WriteString("; axiom " + a.ax.Name + "\n(assert " + a.term + ")\n")
+		}
+	}
 	var q bytes.Buffer
 	q.WriteString("(set-option :produce-models true)\n(set-logic ALL)\n")
 	for _, d := range ft.g.reg.Decls() {
@@ -121,18 +131,10 @@ func (ft *FT) BuildQuery(o *Obl, axs []axTerm) string {
 	for _, d := range ft.g.sfDecls {
 		q.WriteString(d + "\n")
 	}
-	for _, d := range ft.g.literalFacts() {
+	for _, d := range ft.g.literalFacts(mid.String() + body.String() + strings.Join(ft.g.reg.Decls(), "\n")) {
 		q.WriteString(d + "\n")
 	}
-	for _, d := range ft.decls {
-		q.WriteString(d + "\n")
-	}
-	for i, a := range axs {
-		if included[i] {
-			ft.axUsed[a.ax.Name] = true
-			q.WriteString("; axiom " + a.ax.Name + "\n(assert " + a.term + ")\n")
-		}
-	}
+	q.Write(mid.Bytes())
 	q.Write(body.Bytes())
 	q.WriteString("(check-sat)\n")
 	return q.String()
